@@ -238,9 +238,10 @@ def main(mod, tier):
         "wall_s": round(wall, 3),
         "violations": len(violations),
     }
-    os.makedirs(os.path.join(env.VERIF_DIR, "evidence"), exist_ok=True)
-    with open(os.path.join(env.VERIF_DIR, "evidence", prop + ".json"), "w") as f:
-        json.dump(ev, f, indent=1, sort_keys=True, default=str)
+    if not os.environ.get("VERIF_NOEVIDENCE"):
+        os.makedirs(os.path.join(env.VERIF_DIR, "evidence"), exist_ok=True)
+        with open(os.path.join(env.VERIF_DIR, "evidence", prop + ".json"), "w") as f:
+            json.dump(ev, f, indent=1, sort_keys=True, default=str)
     print("%s tier=%s seed=%d cases=%d evaluations=%d nontrivial=%d states=%d transitions=%d "
           "outcomes=%d known=%d violations=%d wall=%.1fs"
           % (prop, tier, env.SEED, len(cases), evals, nontrivial, states, transitions,
